@@ -39,6 +39,10 @@ Failed(e) ==
         \* a mapping that already carries symbols is left alone unless force is requested
         leftalone |-> e.force \/ \A i \in DOMAIN b.locs :
                          (b.locs[i].map # 0 /\ MapOf(b, b.locs[i].map).hasfn) => a.locs[i].lines = b.locs[i].lines,
+        \* the local symbolizer also leaves a mapping alone that carries file names or line numbers only (the remote
+        \* service, which supplies nothing but function names, looks at the has-functions flag alone)
+        leftalone_partly |-> e.force \/ e.remote \/ \A i \in DOMAIN b.locs :
+                         (b.locs[i].map # 0 /\ (MapOf(b, b.locs[i].map).hasfile \/ MapOf(b, b.locs[i].map).hasline)) => a.locs[i].lines = b.locs[i].lines,
         \* symbol information is only ever attached: a location never loses its lines
         attached |-> \A i \in DOMAIN b.locs : Len(b.locs[i].lines) > 0 => Len(a.locs[i].lines) > 0,
         none     |-> e.none => (a = b) ]
